@@ -43,7 +43,8 @@ def _exact_field(rng, n, code):
         small = rng.random(n) < 0.3
         a[small] = (a[small] % 21).astype(code)
         edge = rng.random(n) < 0.1
-        a[edge] = np.where(rng.random(int(edge.sum())) < 0.5, ii.min, ii.max).astype(code)
+        lohi = np.array([ii.min, ii.max], dtype=code)
+        a[edge] = lohi[rng.integers(0, 2, size=int(edge.sum()))]
         return a
     if code == "f8":
         # |m| < 1e6, k <= 8: m*5**k has at most 6 + 6 = 12 digits
